@@ -208,6 +208,7 @@ def storeMeta (root : Path) (fs : PFS) (k : Key) (m : UMeta) : Except StoreErr P
 
 def store (root : Path) (fs : PFS) (k : Key) (d : Data) (m : UMeta) : Except StoreErr PFS := do
   let p ← path root k
+  let _ ← metaPath root k                                  -- `metadata_path_for_key(key).unlink(missing_ok=True)`: key check first
   let fs1 ← fs.mkdirP (root ++ compsParts k).dropLast      -- `path_for_key(key).parent` (lexical)
   let fs2 ← fs1.write p (.dfile d)
   storeMeta root fs2 k { m with size := some d.length, md5 := some d }
